@@ -1,3 +1,4 @@
+@classmethod
 def spec(cls, owner, name, value, constraints=None, persist_data=True, persist_constraints=False, strict=True, live=False):
     constrained = cls(owner, name, value, constraints, persist_data=persist_data, persist_constraints=persist_constraints, strict=strict, live=live)
     setattr(constrained.owner, constrained.name, constrained)
